@@ -255,7 +255,7 @@ fn source_roundtrip(rep: &Report, n: usize, core: bool, seed: u64) {
             } else {
                 stack_form(which - MOV_FORMS - XCHG_FORMS, &mut rng, &wl)
             };
-            let mut sp = if it % 2 == 0 { Spell::plain() } else { Spell::random(rng.fork(it as u64)) };
+            let mut sp = if it % 2 == 0 { Spell::plain() } else { Spell::random_syn(rng.fork(it as u64)) };
             let text = format!("{}start:\n{}\n", data_src, ins.src(&mut sp));
             let a = match asm::assemble(&text) {
                 Ok(a) => a,
